@@ -24,7 +24,8 @@ MANIFEST = {
             'leaves state (and, through the relay path for a seeded sample, the store) unchanged, while the same forgery at '
             'the non-checkpointed neighbours h-1 and h+1 is accepted unvalidated (the documented design), which shows the '
             'rejection is the checkpoint\'s doing; the accepting branch is exercised with the real genesis and with a '
-            'synthetic table entry. The 327 recorded table entries must still be present.',
+            'synthetic table entry. The 327 recorded table entries must still be present.'
+            ' Hiccup competitor_first installs a rival sibling (trivial stated target, bulk route) before real blocks h and h+1 are relayed. One node per run, whose head is on a trusted tip at H+3, bulk-downloads a side branch from a lower trusted tip across a checkpointed height H divisible by 10,000 (the heights that route compares): no block of it at or above H may enter chain state.',
     'note': 'Trusted: golden copy of the checkpoint table and of the recorded blocks (refmodel/golden.py, world/realchain), '
             'python scrypt/hashlib, own evidence computation (refmodel/evidence.py). Bulk download compares checkpoints only at '
             'heights divisible by 10,000 (documented design): recorded as an observation, not judged.',
